@@ -447,6 +447,15 @@ def date_args(case):
     form = case["form"]
     if form == "epoch":
         args = (Epoch(jde),)
+    elif form == "epoch_reused":
+        # an Epoch object that already served another date in all four functions and was
+        # then moved with set(): still "an Epoch", and must give what a fresh one gives
+        e = Epoch(jde + 3000.25 if jde < 2.9e6 else jde - 3000.25)
+        for fn in (C.mean_obliquity, C.nutation_longitude, C.nutation_obliquity, C.true_obliquity):
+            fn(e)
+        e.set(jde)
+        args = (e,)
+        jde = e.jde()
     elif form == "args":
         args = (y, m, d)
     elif form == "tuple":
@@ -660,7 +669,7 @@ def ymd(ylo, yhi, for_datetime):
 
 def date_cases(ylo, yhi):
     plain = st.builds(lambda d, f: {"ymd": d, "form": f}, ymd(ylo, yhi, False),
-                      st.sampled_from(["epoch", "args", "tuple", "list"]))
+                      st.sampled_from(["epoch", "epoch_reused", "args", "tuple", "list"]))
     dt = st.builds(lambda d, f: {"ymd": d, "form": f}, ymd(max(ylo, 1), min(yhi, 9999), True),
                    st.sampled_from(["date", "datetime"]))
     return st.one_of(plain, plain, dt)
